@@ -5,6 +5,8 @@ import DmrVerif.Driver.Pdu
 Line-protocol operations for the burst model (C01).
 
 * `burst.parse <U|V|D> <264 bits>`  → `ok <sync> <start><vocoder><data><hasEmb> <emb|-> <slot|-> <payload|-> <as_bits | ERR …>`
+* `burst.transplant <U|V|D> <264 bits> <48 centre bits>` → as `burst.parse`, for the voice burst whose vocoder bits are the two
+  halves of the given burst around the given centre (`Burst.transplant`; payload content that is a valid object of another kind)
 * `burst.build <cc> <sync value> <kind> <fields …>` → the 264 bits of the assembled burst, or `ERR …`
 * `slot.dec <20 bits>`, `emb.dec <16 bits>` → fields and re-serialised bits
 * `sync.resolve <48-bit value>` → pattern value or `EMB` (`SyncPatterns.resolve_bytes`)
@@ -91,6 +93,13 @@ def burstOp (op : String) (a : List String) : Option String :=
     let bt ← burstTypeOf bt
     let bs ← pBits bs
     some (match Burst.parse crcs bs bt with
+      | .error e => e.toString
+      | .ok q => parsedToString q (Burst.serialise q))
+  | "burst.transplant", [bt, bs, ce] => do
+    let bt ← burstTypeOf bt
+    let bs ← pBits bs
+    let ce ← pBits ce
+    some (match Burst.parse crcs (Burst.transplant bs ce) bt with
       | .error e => e.toString
       | .ok q => parsedToString q (Burst.serialise q))
   | "burst.mmdvm", [ft, sl, bs] => do
